@@ -706,11 +706,6 @@ func (s *storage) append(br blob.SizedRef, r io.Reader) error {
 	}
 
 	packIdx := len(s.fds) - 1
-	if s.size > s.maxFileSize {
-		if err := s.nextPack(); err != nil {
-			return err
-		}
-	}
 	err = s.index.Set(br.Ref.String(), blobMeta{packIdx, offset, br.Size}.String())
 	if err != nil {
 		if _, seekErr := s.writer.Seek(origOffset, io.SeekStart); seekErr != nil {
@@ -720,8 +715,16 @@ func (s *storage) append(br blob.SizedRef, r io.Reader) error {
 		} else {
 			s.size = origOffset
 		}
+		return err
 	}
-	return err
+	// Roll over only once the blob is indexed: the undo above must act on
+	// the pack file the blob was appended to, not on a freshly opened one.
+	if s.size > s.maxFileSize {
+		if err := s.nextPack(); err != nil {
+			return err
+		}
+	}
+	return nil
 }
 
 // meta fetches the metadata for the specified blob from the index.
